@@ -24,6 +24,7 @@ import (
 	"github.com/xuperchain/xupercore/protos"
 
 	"github.com/golang/protobuf/proto"
+	cryptoCommon "github.com/xuperchain/crypto/core/common"
 )
 
 // ImmediateVerifyTx verify tx Immediately
@@ -309,6 +310,17 @@ func (t *State) verifyXuperSign(tx *pb.Transaction, digestHash []byte) (bool, ma
 		if !ok {
 			t.log.Warn("XuperSign: address and public key not match", "addr", addr, "pubkey", pubkeys[idx])
 			return false, nil, errors.New("XuperSign: address and public key not match")
+		}
+	}
+	// Every address listed above is reported as verified, so every listed key must have taken part
+	// in the signature. The unified verifier dispatches on the type the signature itself declares:
+	// a plain ECDSA / Schnorr / threshold signature is checked against the first key only and a ring
+	// signature shows that some one member signed. Only a multi-signature is made by all the keys.
+	if len(pubkeys) > 1 {
+		xsig := new(cryptoCommon.XuperSignature)
+		if err := json.Unmarshal(tx.GetXuperSign().GetSignature(), xsig); err != nil || xsig.SigType != cryptoCommon.MultiSig {
+			t.log.Warn("XuperSign: signature is not a multi-signature of all listed public keys")
+			return false, nil, errors.New("XuperSign: signature is not a multi-signature of all listed public keys")
 		}
 	}
 	ok, err := t.sctx.Crypt.VerifyXuperSignature(pubkeys, tx.GetXuperSign().GetSignature(), digestHash)
